@@ -316,6 +316,8 @@ def write_evidence(prop, tier, seed, spec, sel, stats, viol, kf, wall, undecided
         bounded += s.get('bounded', [])
         checker += s.get('cmds', [])
         samples += s.get('samples', [])[:6]
+    # obligations that fail only as listed known findings are reported apart (they are neither discharged nor violations)
+    obligations = discharged + len(viol)
     units_out = []
     rep = v.get('report', {})
     for u in sel:
@@ -347,7 +349,8 @@ def write_evidence(prop, tier, seed, spec, sel, stats, viol, kf, wall, undecided
             'undecided_subclaims': spec.get('undecided', []),
             'samples': samples[:24] or ['(none)'],
             'failed_obligations': [f.obligation for f in viol],
-            'known_findings_reproduced': [k['id'] for _, k in kf],
+            'known_findings_reproduced': sorted(set(k['id'] for _, k in kf)),
+            'known_finding_obligations': [f.obligation for f, _ in kf],
             'other_engines': {k: {kk: vv for kk, vv in s.items() if kk not in ('failures',)} for k, s in stats.items() if k not in ('verus', 'canary')},
             'explanation': spec.get('explanation', ''),
         },
